@@ -56,6 +56,7 @@ func FixedHeadUUID(i int) uuid.UUID {
 
 // LoadCorpus reads and builds all example documents.
 func LoadCorpus(repo string) (*Corpus, error) {
+	pubRepo = repo
 	var files []string
 	for _, d := range corpusDirs {
 		root := filepath.Join(repo, d)
